@@ -527,6 +527,31 @@ func TestC07Backpressure(t *testing.T) {
 				}
 			}
 		}
+		// a publisher that is slow to read its own OK: the event is published all the
+		// same (the subscriptions were open when it was sent)
+		lazyID := ""
+		if rapid.Bool().Draw(t, "lazy_publisher") && len(readers) > 0 {
+			lazy := newRConn(200, router)
+			defer lazy.end(false)
+			lazy.stall.Store(true)
+			time.Sleep(2500 * time.Microsecond)
+			seq++
+			e := &mocrelay.Event{Pubkey: authors[0], Kind: 1, CreatedAt: int64(seq), Tags: []mocrelay.Tag{}, Content: "from-a-publisher-that-does-not-read"}
+			gen.Seal(e)
+			lazyID = e.ID
+			if err := lazy.put(&mocrelay.ClientEventMsg{Event: e}, 10*time.Second); err != nil {
+				failf("stalled", "the router takes an EVENT", err.Error(), "")
+			}
+			for ri, r := range readers {
+				m, ok := r.next(10 * time.Second)
+				em, is := m.(*mocrelay.ServerEventMsg)
+				if !ok || !is || em.Event.ID != e.ID {
+					failf("delivery-missing", "every open matching subscription receives a published event (the publisher has not read its OK yet)", fmt.Sprintf("reader %d got %s", ri, hx.JSON(briefServer(m))), "the event")
+				}
+			}
+			col.Label("lazy-publisher")
+			lazy.stall.Store(false)
+		}
 		// while still backlogged the stalled connection issues another REQ: it must be
 		// answered by EOSE once the peer reads again (every REQ is answered by EOSE)
 		lateReq := rapid.Bool().Draw(t, "late_req")
@@ -550,7 +575,7 @@ func TestC07Backpressure(t *testing.T) {
 			if !ok {
 				break
 			}
-			if em, is := m.(*mocrelay.ServerEventMsg); is {
+			if em, is := m.(*mocrelay.ServerEventMsg); is && em.Event.ID != lazyID {
 				late = append(late, em.Event.ID)
 			}
 			if eo, is := m.(*mocrelay.ServerEOSEMsg); is && eo.SubscriptionID == "late" {
